@@ -108,6 +108,16 @@ func Main(args []string) int {
 		if strings.HasPrefix(*dump, "callers:") {
 			p.DumpCallers((*dump)[8:])
 		}
+		if strings.HasPrefix(*dump, "canon:") {
+			canonProg = p
+			fmt.Println(canonTerm((*dump)[6:]))
+		}
+		if *dump == "templates" {
+			canonProg = p
+			for k, v := range templates() {
+				fmt.Println(k, "=>", v)
+			}
+		}
 		if *dump == "funcs" {
 			for _, f := range p.Funcs {
 				fmt.Println(FuncName(f), p.Pos(f.Pos()))
